@@ -78,6 +78,45 @@ CHECKS = {
     ),
 }
 
+LOOP_NOTE = "Native part: real threads, release-like -O1 build with asserts on, 16 worker processes; E1 part: dsched schedule exploration (SC interleavings at atomic granularity, 0-3 pool threads, small tuning constants). Range sizes follow the documented domain (ChunkedRange: sizes that fit int64_t). Sampled except where stated exhaustive."
+LOOP_ASSUME = ["range sizes <= INT64_MAX (ChunkedRange's documented domain); explicit chunk sizes >= 1 with a bounded number of chunks",
+               "E1 part: SC interleavings only; native part: whatever the OS schedules, on 0-4 pool threads"] + E1_ASSUME[:1]
+
+
+def loop_check(title, text, parts, ref, technique, note=None, **kw):
+    d = dict(title=title, level="exploration", technique=technique, text=text, note=note or LOOP_NOTE, design_ref=ref, parts=parts,
+             assumptions=LOOP_ASSUME)
+    d.update(kw)
+    return d
+
+
+CHECKS.update({
+    "C12": loop_check("parallel_for covers each index exactly once",
+                      "Generated parallel_for calls over all eight index types, edge-biased (start,end) pairs (type limits, zero-straddling, empty, reversed, size 1..600 and huge ranges up to 2^63 in range-functor form), static / adaptive / explicit chunking, every ParForOptions field, TaskSet and ConcurrentTaskSet, stateful and stateless overloads, pools of 0-4 threads, nesting levels 0-2; plus ALL 65792 (start,end) pairs of both 8-bit types; plus the same generator under dsched schedules. Oracle: the logged body intervals are an exact partition of [start,end) and no body is running when the call / taskSet.wait() returns.",
+                      [nat("loops", "native"), nat("loops", "exh8"), e1("loops", "e1")], "§4 C12",
+                      "PBT with an interval-partition oracle: edge-biased generated ranges/options (native threads) + exhaustive 8-bit sweep + the same programs under generated dsched schedules"),
+    "C13": loop_check("parallel_for honours the granularity contract",
+                      "As C12 with granularity in {2,3,4,7,8,16,64}, static and adaptive chunking only, start offsets and sizes covering all residues; oracle over the logged chunk sizes: at most one is not a multiple of g and that one ends at the range end.",
+                      [nat("loops", "native"), e1("loops", "e1")], "§4 C13",
+                      "PBT over (start, size, g, chunking, wait, pool) with a chunk-size oracle (both directions of the statement), native + dsched schedules"),
+    "C14": loop_check("parallel_for never uses one state object concurrently",
+                      "Stateful parallel_for overloads (vector / deque / list state containers, pre-filled or not, reuseExistingState) over all chunking modes, granularity tails, wait true/false; every state carries an in-use flag taken by CAS on body entry (a failed CAS is a violation), bodies contain preemption points; the monitor stays armed until taskSet.wait() returns; states container non-empty afterwards.",
+                      [e1("loops", "e1"), nat("loops", "native")], "§4 C14",
+                      "PBT with a per-state exclusivity monitor (CAS in-use flag) under generated dsched schedules and native threads"),
+    "C15": loop_check("for_each applies the function once per element",
+                      "for_each / for_each_n over vector, list and forward_list, n in {0,1,2..3*threads+2, up to 1000}, extra elements beyond n, maxThreads in {0,1,2,n,n+1,unlimited}, wait true/false, TaskSet and ConcurrentTaskSet, pools of 0-4 threads (zero-thread pools included), nested in a pool task; per-element counters must be exactly 1 for the first n and 0 beyond, nothing running at return / wait(). A crash or assertion in the child is a violation.",
+                      [nat("loops", "native"), e1("loops", "e1")], "§4 C15",
+                      "PBT with per-element application counters, native threads + generated dsched schedules; crash = violation"),
+    "C16": loop_check("parallel_invoke runs each functor exactly once",
+                      "Generated divide-and-conquer trees of parallel_invoke calls (arity 1-8, depth up to 12, unbalanced), pools of 0-4 threads, small load multipliers so the inline fallback is reached; leaf ledger exactly 1 each, the last functor of every call ran on the calling thread before the call returned, everything finished at wait().",
+                      [nat("loops", "native"), e1("loops", "e1")], "§4 C16",
+                      "program-level PBT (generated recursion shapes) with a leaf ledger and caller-thread check, native + dsched schedules"),
+    "C48": loop_check("maxThreads bounds the concurrency of parallel loops",
+                      "parallel_for (all chunking modes, granularity tails, wait true/false) and for_each with maxThreads in 0..n+1; the body increments a concurrent-invocation counter around preemption points; oracle: max concurrency <= max(1,maxThreads), and for maxThreads in {0,1} all bodies on one thread.",
+                      [e1("loops", "e1"), nat("loops", "native"), e1("loops", "fe-e1"), nat("loops", "fe-native")], "§4 C48",
+                      "PBT with a concurrent-invocation monitor under generated dsched schedules and native threads"),
+})
+
 
 def custom_run(prop, part, tier, seed, sigs):
     raise NotImplementedError
